@@ -83,7 +83,7 @@ pub fn float_pool() -> Vec<u32> {
 
 pub const NAME_POOL: &[&str] = &[
     "x", "y", "z", "foo", "bar", "ARG", "BIN", "n1", "echo", "true", "ls", "nosuchcmd", "a-b-1",
-    "k", "v0", "tmp",
+    "k", "v0", "tmp", "é", "日本", "naïve", "🦀x", "ß",
 ];
 
 pub fn gen_int(r: &mut Rng) -> i32 {
@@ -547,10 +547,12 @@ pub fn family_program(r: &mut Rng, ctx: &GenCtx) -> Vec<ISpec> {
         ])],
         7 => {
             // name growth
+            // (any name of the pool, multi-byte ones included: byte positions matter to string code)
             vec![ISpec::L(vec![
-                ISpec::N("ab".to_string()),
+                ISpec::N(r.pick(NAME_POOL).to_string()),
+                ISpec::N(r.pick(NAME_POOL).to_string()),
                 i("EXEC.Y"),
-                ISpec::L(vec![i("NAME.DUP"), i("NAME.CAT")]),
+                ISpec::L(vec![i("NAME.DUP"), i("NAME.CAT"), i(*r.pick(&["NOOP", "NAME.SWAP", "CODE.FROMNAME", "NAME.DUP", "CODE.PRINT"]))]),
             ])]
         }
         _ => {
